@@ -18,6 +18,14 @@ CHECKS = {
   text="Solver-decided, bounded: from an arbitrary invariant-satisfying machine (all 12 phases x staging/current shapes, symbolic state leaves) each of the 17 operations returns nil exactly when the reference automaton written from the method documentation enables it, then reaches the documented phase with the documented effect, and otherwise leaves phase, staging and current transaction (identity, slots and contents) unchanged; never panics for indices below N.",
   note="Trusted: go/ssa lowering, interpreter (translator-validated), z3; reference automaton of DESIGN.md Appendix A.2; ideal signatures.",
   ref="DESIGN.md §3 C09, Appendix A.2"),
+ "C10": dict(
+  text="Solver-decided, bounded: from an arbitrary invariant-satisfying machine whose store is its full dump, every operation of the persisting state machine with every crash point (before any store write event, or none) restores to exactly the machine before or after the operation (index, parameters, phase, current transaction, staged state with exactly its signatures, peers, parent), to the state after if the operation completed, and re-establishes 'store = dump' (inductive: covers histories of any length); real PersistRestorer over the real in-memory sorted store. The stale-signature defect (F8) found this way was repaired.",
+  note="Trusted: go/ssa lowering, interpreter (translator-validated), z3; ideal signatures; write-event crash granularity; LevelDB outside.",
+  ref="DESIGN.md §3 C10"),
+ "C11": dict(
+  text="Solver-decided, bounded: for all histories of up to h create/advance/remove steps over three channels with overlapping peer lists and a parent/child pair, after every step each restorer view (RestoreAll, RestorePeer, ActivePeers, RestoreChannel) and the raw key set agree with the reference set of live channels, and restored channels equal their own live machines leaf by leaf. The parent-key residue defect (F9) found this way was repaired.",
+  note="Trusted: go/ssa lowering, interpreter (translator-validated), z3; bounded histories; LevelDB outside.",
+  ref="DESIGN.md §3 C11"),
  "C13": dict(
   text="Solver-decided, bounded: every native decoder entry point, run on a fully symbolic buffer of every length up to L and on valid encodings with an arbitrary 4-byte window (plus truncation), never panics, never allocates more than 65536 elements from an unread length field, and on success the declared counts are within the documented limits (lengths read from the wire are symbolic: make(n) forks into exact small lengths and a symbolic-length class); the protobuf serializer's Decode is run on generated structs with one arbitrary deviation each. Known findings F2b (unbounded 32-bit lengths in address maps/arrays and AuthResponse) and F3pb (unknown backend key in protobuf) are reported as KNOWN-FINDING; six genuine defects found this way were repaired by fix: commits.",
   note="Trusted: go/ssa lowering, interpreter (translator-validated incl. native allocation proxy), z3; proto.Marshal/Unmarshal modelled by contract.",
